@@ -144,9 +144,14 @@ def c11_a(ctx):
     # start points inside the bounds as well
     mz = mfn
     ex = ctx.ex(mz)
+    spname = None
+    for c in ctx.calls(mz, 'scipy.optimize.minimize(*_)'):
+        if len(c.args) >= 2 and isinstance(c.args[1], ast.Subscript) and \
+                isinstance(c.args[1].value, ast.Name):
+            spname = c.args[1].value.id
     sp = [s for s in own_nodes(mz.node) if isinstance(s, ast.Assign) and
-          isinstance(s.targets[0], ast.Subscript) and
-          match(ex.raw(s.targets[0]), pattern('start_points[:, _]')) is not None]
+          isinstance(s.targets[0], ast.Subscript) and spname is not None and
+          match(ex.raw(s.targets[0]), pattern('{}[:, _]'.format(spname))) is not None]
     okp = len(sp) >= 2 and all(
         match(ex.term(s.value), pattern('np.clip(_x, *bounds[_i])')) is not None or
         match(ex.term(s.value), pattern('_r.uniform(*bounds[_i], _n)')) is not None for s in sp)
